@@ -25,9 +25,10 @@ ENTRIES = {
                 "Counter::wait_guards (arm Notified, read count, poll/park, re-arm) as separate atomic steps. TLC "
                 "checks for every interleaving of up to 3 (thorough 4) guards, including guards created while the "
                 "waiter runs, that the waiter gets through only when no guard is still held and, under weak fairness "
-                "of the waiter alone, always gets through once all guards finished dropping; two wrong designs "
-                "(notify before release, arm after the check) are shown to fail. Every generated behaviour for "
-                "1..3 guards (quick: 1, 2 and every 6th for 3; thorough: also every 8th of the 628088 for 4 guards) is forced on real OS threads through cfg(eigerco_lumina_verif) schedule points "
+                "of the waiter alone, always gets through once all guards finished dropping; a task may end by return or by "
+                "panic (the unwinding drops the guard) and a caller may be cancelled; wrong designs (notify before "
+                "release, arm after the check, guard owned by the caller, no wake-up on a panic unwind) are shown to fail. Every generated behaviour for "
+                "1..3 guards with every combination of returning and panicking tasks (16 / 896 / 79264 behaviours; quick: all for 1 and 2, every 48th for 3; thorough: all, plus every 8th of the 628088 four-guard behaviours) is forced on real OS threads through cfg(eigerco_lumina_verif) schedule points "
                 "inside counter.rs, comparing count and waiter position with the model after each step and "
                 "requiring the real waiter to return. Unforced multi-thread runs (std threads, blocking pool, "
                 "tokio tasks, seeded jitter at the points) and RedbStore::close after operations whose callers were "
@@ -64,13 +65,13 @@ def run(ck):
     nmax = 3 if ck.quick else 4
     # 1. the design
     mc = ck.cfg_with("MC_Counter.cfg", {"N": nmax})
-    ck.tlc_mc("MC_Counter", mc, required_actions=["Create", "G1", "G2", "CallerCancel", "W0", "W1", "W2", "W3"])
+    ck.tlc_mc("MC_Counter", mc, required_actions=["Create", "G1k", "G2", "CallerCancel", "W0", "W1", "W2", "W3"])
     # the caller owning the guard (a cancelled caller releases the count while its task runs on) must break Safety
     gic = ck.cfg_with("MC_Counter.cfg", {"N": 2, "Deviation": '"guard_in_caller"'}, name="MC_Counter_guard_in_caller.cfg")
     r = ck.tlc_mc("MC_Counter", gic, tag="mc_dev_guard_in_caller", expect_violation="Safety")
     if not r.get("expected_violation_reproduced"):
         raise vf.ToolError("vacuity: wrong design guard_in_caller is not rejected by spec/Counter.tla")
-    for dev in ["swap_drop", "arm_after_check"]:
+    for dev in ["swap_drop", "arm_after_check", "no_wake_on_panic"]:
         cfg = ck.cfg_with("MC_Counter.cfg", {"N": 3, "Deviation": f'"{dev}"'}, name=f"MC_Counter_{dev}.cfg")
         # (vf.tlc_mc does not recognise TLC's "Temporal property X was violated" wording: parse here)
         rc, out_path, dt = ck._tlc("MC_Counter", cfg, f"mc_dev_{dev}", workers=ck.workers_mc)
@@ -85,11 +86,14 @@ def run(ck):
     cases = f"{ck.work}/cases.ndjson"
     with open(cases, "w") as out:
         for n in range(1, nmax + 1):
-            cfg = ck.cfg_with("Gen_Counter.cfg", {"N": n}, name=f"Gen_Counter_{n}.cfg")
+            # every task may end by return or by panic (ExitKinds): 16 / 896 / 79264 behaviours for N = 1 / 2 / 3;
+            # N = 4 is generated with returning tasks only (628088 behaviours)
+            kinds = '{"return"}' if n >= 4 else '{"return", "panic"}'
+            cfg = ck.cfg_with("Gen_Counter.cfg", {"N": n, "ExitKinds": kinds}, name=f"Gen_Counter_{n}.cfg")
             p, _ = ck.tlc_gen("Gen_Counter", cfg, f"cases{n}.ndjson", tag=f"gen{n}", count_stats=False, heap="12g")
-            # N = 4 has 628088 behaviours: every 8th is forced; quick tier: every 6th of the 9908 for N = 3
-            # (a forced run costs 3 ms on an idle machine but 30 ms under load); otherwise all of them
-            every = 8 if n >= 4 else (6 if n == 3 and ck.quick else 1)
+            # forced: all behaviours for N <= 2; N = 3: every 48th in the quick tier (a forced run costs 3 ms on an
+            # idle machine, 30 ms under load), all in the thorough tier; N = 4: every 8th
+            every = 8 if n >= 4 else (48 if n == 3 and ck.quick else 1)
             with open(p) as f:
                 for k, line in enumerate(f):
                     if k % every == 0:
@@ -108,6 +112,7 @@ def run(ck):
     s2 = ck.harness(hb, ["record", "counter", "--seed", ck.seed, "--out", trace, "--runs", runs, "--maxguards", 6],
                     "record", timeout=3000)
     ck.absorb(s2, classify)
+    ck.cov["guards_dropped_by_panic_unwind"] = s2.get("extra", {}).get("guards_dropped_by_panic_unwind")
     _validate(ck, tr_cfg, trace, "unforced")
     trace2 = f"{ck.work}/trace_redb.ndjson"
     s3 = ck.harness(hb, ["record", "redbclose", "--seed", ck.seed, "--out", trace2, "--runs", 150 if ck.quick else 2000],
@@ -117,8 +122,11 @@ def run(ck):
     ck.cov["redb_callers_cancelled"] = s3.get("extra", {}).get("redb_callers_cancelled")
     # measured by the harness' own storage backend (database accesses after close() was called), not by the
     # guards under test: a tree that releases guards early still counts here and shows up as a VIOLATION
-    if not ck.cov["redb_runs_with_work_in_flight_at_close"] or not ck.cov["redb_callers_cancelled"]:
-        raise vf.ToolError("vacuity: RedbStore::close was never called with blocking work in flight / cancelled callers")
+    ck.cov["redb_tasks_panicked"] = s3.get("extra", {}).get("redb_tasks_panicked")
+    if not ck.cov["redb_runs_with_work_in_flight_at_close"] or not ck.cov["redb_callers_cancelled"] \
+            or not ck.cov["redb_tasks_panicked"] or not ck.cov["guards_dropped_by_panic_unwind"]:
+        raise vf.ToolError("vacuity: RedbStore::close was never called with blocking work in flight / cancelled "
+                           "callers / a panicking task")
     _validate(ck, tr_cfg, trace2, "redb-close")
     ck.cov["exhaustive"] = True
     ck.cov["rule"] = ("spec->impl: one forced run per behaviour of Gen_Counter (all interleavings of N guards and "
